@@ -38,6 +38,10 @@ func init() {
 		Doc: "decoded slices are not nil-started accumulators (empty ≠ null on re-encode)", Run: runDecNilAcc})
 	reg(&core.RuleInfo{Name: "FRESH-ITER", Props: []string{"C02", "C03", "C10"}, Engine: "ALIAS", Floor: 1, Confirmed: 2,
 		Doc: "a container stored per loop iteration into another container is allocated in that iteration (no entry shares a mutable set with another)", Run: runFreshIter})
+	reg(&core.RuleInfo{Name: "ALL-KEYS", Props: []string{"C03", "C16", "C05"}, Engine: "CFG", Floor: 3, Confirmed: 5,
+		Doc: "loops that maintain the cache's index / registry per key run over every key (no early exit)", Run: runAllKeys})
+	reg(&core.RuleInfo{Name: "DROP-EMPTY", Props: []string{"C05", "C07", "C03"}, Engine: "INT", Floor: 2, Confirmed: 2,
+		Doc: "an entry holding a nested set is dropped as a whole only when that set is empty", Run: runDropEmpty})
 	reg(&core.RuleInfo{Name: "STATE-CALLERS", Props: []string{"C08", "C09"}, Engine: "CG", Floor: 6, Confirmed: 9,
 		Doc: "each merge-state mutator is called only by the handler of its own message type", Run: runStateCallers})
 }
@@ -907,5 +911,200 @@ func runFreshIter(c *core.Ctx) {
 	}
 	if n == 0 {
 		c.NoAnchor(nil, "containers stored into containers inside loops (matcher constructor, index, decoders)")
+	}
+}
+
+// ---------------------------------------------------------------- ALL-KEYS
+
+// ALL-KEYS: the write path of the event cache keeps several structures in
+// step by looping over the keys of an event (index keys, referenced targets
+// of a deletion request). Such a loop must treat every key: it may skip a key
+// (continue) but never leave early (return / break), or the remaining keys
+// keep stale entries — an event that left the cache is still found through
+// the keys that were not visited.
+func runAllKeys(c *core.Ctx) {
+	P := c.P
+	add := P.Method(P.Root, "EventCache", "Add")
+	if add == nil {
+		c.NoAnchor(nil, "EventCache.Add")
+		return
+	}
+	n := 0
+	for _, fn := range an.RefClosure([]*ssa.Function{add}, P.InModule) {
+		if !strings.HasPrefix(P.Pos(fn.Pos()), "event_cache.go") {
+			continue
+		}
+		seen := map[*ssa.BasicBlock]bool{}
+		for _, b := range fn.Blocks {
+			h := an.LoopHeaderOf(b)
+			if h == nil || seen[h] {
+				continue
+			}
+			seen[h] = true
+			loop := an.LoopBlocks(h)
+			// does the loop maintain receiver state (directly or through a module callee)?
+			mutates := false
+			for lb := range loop {
+				for _, in := range lb.Instrs {
+					switch x := in.(type) {
+					case *ssa.MapUpdate:
+						mutates = mutates || strings.HasPrefix(an.PathOf(x.Map), "recv.")
+					case *ssa.Call:
+						if bi, ok := x.Call.Value.(*ssa.Builtin); ok && bi.Name() == "delete" {
+							mutates = true
+						} else if g := an.StaticCallee(&x.Call); g != nil && P.InModule(g) && g.Signature.Recv() != nil {
+							if len(x.Call.Args) > 0 && an.PathOf(x.Call.Args[0]) == "recv" {
+								mutates = true
+							}
+						}
+					}
+				}
+			}
+			if !mutates {
+				continue
+			}
+			n++
+			c.CountSites(1)
+			var exits []string
+			for lb := range loop {
+				if lb == h {
+					continue
+				}
+				for i, sc := range lb.Succs {
+					if !loop[sc] && !an.DeadEdge(lb, i) {
+						exits = append(exits, P.Pos(an.LastInstr(lb).Pos()))
+					}
+				}
+				if _, isRet := an.LastInstr(lb).(*ssa.Return); isRet {
+					exits = append(exits, P.Pos(an.LastInstr(lb).Pos()))
+				}
+			}
+			sort.Strings(exits)
+			hpos := "-"
+			for _, lb := range fn.Blocks {
+				if !loop[lb] || hpos != "-" {
+					continue
+				}
+				for _, in := range lb.Instrs {
+					if in.Pos().IsValid() {
+						hpos = P.Pos(in.Pos())
+						break
+					}
+				}
+			}
+			c.Check(len(exits) == 0, nil, fname(c, fn), "state-loop", hpos, "the loop leaves only when its keys are exhausted",
+				"the loop that keeps the cache's structures in step can stop before all keys are treated (early exit at "+strings.Join(exits, ", ")+"): entries under the remaining keys go stale, so a removed event is still found through them")
+		}
+	}
+	if n == 0 {
+		c.NoAnchor(nil, "state-maintaining loops on the cache's write path")
+	}
+}
+
+// ---------------------------------------------------------------- DROP-EMPTY
+
+// DROP-EMPTY: maps of sets (deletion registry: target -> ids of the requests
+// naming it; index: key -> events; subscriptions: connection -> its
+// subscriptions) remove one member and then drop the whole entry when nothing
+// is left. Where the whole-entry removal is guarded by a size test of the
+// nested set, that test must admit size 0 only: "at most one left" also drops
+// a member that belongs to somebody else (another retained deletion request,
+// another subscription of the connection).
+func runDropEmpty(c *core.Ctx) {
+	P := c.P
+	isNested := func(t types.Type) bool {
+		switch u := t.Underlying().(type) {
+		case *types.Map:
+			switch e := u.Elem().Underlying().(type) {
+			case *types.Map, *types.Slice:
+				return true
+			case *types.Pointer:
+				return strings.Contains(e.Elem().String(), "safeMap")
+			}
+		}
+		return false
+	}
+	n := 0
+	for _, fn := range libFuncs(c) {
+		if len(fn.Blocks) == 0 {
+			continue
+		}
+		for _, ci := range calls(fn) {
+			call, ok := ci.(*ssa.Call)
+			if !ok || len(call.Call.Args) < 2 {
+				continue
+			}
+			outer := call.Call.Args[0]
+			if b, isB := call.Call.Value.(*ssa.Builtin); isB {
+				if b.Name() != "delete" || !isNested(outer.Type()) {
+					continue
+				}
+			} else {
+				name := an.CalleeName(&call.Call)
+				if !strings.Contains(name, "safeMap") || !strings.HasSuffix(name, ").Delete") {
+					continue
+				}
+				// a safeMap whose values are themselves safeMaps
+				if !strings.Contains(strings.SplitN(outer.Type().String(), "safeMap", 2)[1], "safeMap") {
+					continue
+				}
+			}
+			op := an.PathOf(outer)
+			paths, okp := an.PathsTo(fn, call.Block(), 2048)
+			if !okp {
+				c.Unknown(nil, fname(c, fn), "drop "+clip(op, 40), P.Pos(call.Pos()), "too many paths")
+				continue
+			}
+			// size-like subjects tested on the way
+			subj := map[string]bool{}
+			for _, p := range paths {
+				for _, cd := range p.Conds() {
+					cd = an.NormCond(cd)
+					bin, isBin := cd.V.(*ssa.BinOp)
+					if !isBin {
+						continue
+					}
+					for _, side := range []ssa.Value{bin.X, bin.Y} {
+						sc, isCall := side.(*ssa.Call)
+						if !isCall {
+							continue
+						}
+						sizeLike := false
+						if b, isB := sc.Call.Value.(*ssa.Builtin); isB && b.Name() == "len" {
+							sizeLike = true
+						} else if g := an.StaticCallee(&sc.Call); g != nil && (g.Name() == "Len" || g.Name() == "len" || strings.HasPrefix(g.Name(), "Len[")) {
+							sizeLike = true
+						}
+						if sp := an.PathOf(side); sizeLike && strings.Contains(sp, op) {
+							subj[sp] = true
+						}
+					}
+				}
+			}
+			if len(subj) == 0 {
+				continue // unconditional removal of the whole entry (CLOSE of a connection, …)
+			}
+			n++
+			c.CountSites(1)
+			props := []string{"C07"}
+			switch {
+			case strings.Contains(op, ".deleted"):
+				props = []string{"C05"}
+			case strings.Contains(op, ".idx"):
+				props = []string{"C03"}
+			}
+			for sp := range subj {
+				fr := an.ConstFrame(sp)
+				fr.Domain = an.Range(0, an.PosInf)
+				set, np, _ := fr.ReachSet(fn, call.Block(), nil, nil)
+				c.CountPaths(np)
+				c.Check(set.Subset(an.Range(0, 0)), props, fname(c, fn), "drop "+clip(op, 40), P.Pos(call.Pos()),
+					"the whole entry is dropped only when its nested set is empty ("+clip(sp, 50)+" ∈ "+set.String()+")",
+					"the whole entry of "+op+" is dropped while its nested set may still hold members ("+clip(sp, 60)+" ∈ "+set.String()+", want [0,0]): a member that belongs to another request / subscription is discarded with it")
+			}
+		}
+	}
+	if n == 0 {
+		c.NoAnchor(nil, "size-guarded whole-entry removals from maps of sets")
 	}
 }
